@@ -25,7 +25,7 @@ MSG = {
  "C16_dot_product_ct_mixed_meta_scale.diff": "fix: ckks_dot_product_ct fused path uses max(log_budget) + max(log_delta) as convolution offset (as ct x ct mul)",
  "C16_many_single_input_stale_meta.diff": "fix: ckks_add_many / ckks_mul_many with one input check the budget before assigning metadata",
  "C16_mul_noncompact_operand_error.diff": "fix: CKKS products return OperandNotCompact instead of panicking in poulpy-core on operands with spare limbs",
- "C08_encode_first_carry.diff": "fix: integer encoders compute their carry without forming x - digit\n\n(x.wrapping_sub(digit)) >> base2k wraps for x at the top of the i64 / i128 range with a negative balanced digit, so for\nk above the word width the limbs encoded v - 2^w (base2k = 62, k = 124, v = i64::MAX gave limbs [-2, -1]).", "C14_extended_unit_monomial.diff": None, "C14_mod_switch_small_radix.diff": None, "C15_cbt_exponent_trace.diff": "fix: circuit bootstrapping post-processing traces down to multiples of 2^log_gap_in\n\nglwe_trace(log_n - log_gap_in + 1) keeps multiples of 2^(log_gap_in - 1): in the trace-only branch (exponent mode,\nlog_gap_out == log_gap_in) the lookup-table entry of another gadget row survived and every row but the first was wrong.",
+ "C08_encode_first_carry.diff": "fix: integer encoders compute their carry without forming x - digit\n\n(x.wrapping_sub(digit)) >> base2k wraps for x at the top of the i64 / i128 range with a negative balanced digit, so for\nk above the word width the limbs encoded v - 2^w (base2k = 62, k = 124, v = i64::MAX gave limbs [-2, -1]).", "C14_extended_unit_monomial.diff": "fix: extended block-binary blind rotation no longer skips the unit-monomial terms\n\nWhen ai_lo != 0 the guards ai_hi != 0 and (ai_hi + 1) & (2N - 1) != 0 skipped the terms X^0 * acc[j] - acc[i] with j != i:\nthe accumulator ended on a neighbouring table entry (probability about (ext-1)/(N*ext) per selected coefficient).", "C14_mod_switch_small_radix.diff": "fix: mod_switch_2n for LWE radices not above log2(2N)+1 keeps log2(2N) bits, signs every limb and rounds once\n\nThe small-radix branch returned twice the torus value, truncated, and negated only limb 0 for the Left direction\n(mod_switch_2n(16, base2k = 5, limb0 = -8, Right) returned -8 instead of -4).", "C15_cbt_exponent_trace.diff": "fix: circuit bootstrapping post-processing traces down to multiples of 2^log_gap_in\n\nglwe_trace(log_n - log_gap_in + 1) keeps multiples of 2^(log_gap_in - 1): in the trace-only branch (exponent mode,\nlog_gap_out == log_gap_in) the lookup-table entry of another gadget row survived and every row but the first was wrong.",
 }
 BATCH = {
  "c18": ["C18_hal_read_from_checked.diff", "C18_core_wrappers_commit_after.diff", "C18_binfhe_dist_commit_after.diff", "C18_distribution_payload_checked.diff"],
@@ -33,6 +33,7 @@ BATCH = {
  "c12": ["C12_cnv_size_query_args.diff", "C12_big_normalize_tmp_bytes.diff", "C12_keyswitch_cross_radix_big_normalize.diff", "C12_glwe_trace_sizing.diff", "C12_fhe_uint_prepare_thread_size.diff", "C12_ggsw_expand_rows_res_dft.diff"],
  "misc1": ["C08_encode_first_carry.diff", "C15_cbt_exponent_trace.diff"],
  "enc": ["C19_gglwe_to_ggsw_key_compressed.diff", "C01_sk_plaintext_radix.diff"],
+ "c14": ["C14_mod_switch_small_radix.diff", "C14_extended_unit_monomial.diff"],
  "c16": ["C16_dot_product_ct_mixed_meta_scale.diff", "C16_many_single_input_stale_meta.diff", "C16_mul_noncompact_operand_error.diff"],
 }
 def sh(*a, **k): return subprocess.run(a, capture_output=True, text=True, **k)
